@@ -113,8 +113,8 @@ SEEDS = {
            "pkg/resource", "TestSeed1InvertedComparisonOnEmptyLabels", ["C14"], ""),
  "C14-2": ("C14", "pkg/state/impl/inmem/collection.go", "WatchAll event filter: for Updated events the new value is matched against the label queries only (ID query dropped)",
            "a kind watch carrying an ID query plus an Update of a resource whose ID does not match but whose labels do",
-           "pkg/state/impl/inmem", "TestSeed2FilteredWatchReplayEqualsFilteredList", ["C14", "C02"],
-           "the event-rewriting filter closure of WatchAll is not under contract (filterInPlaceMutating is trusted); C14 claims the selector semantics, not the exactness of filtered views"),
+           "pkg/state/impl/inmem", "TestSeed2FilteredWatchReplayEqualsFilteredList", ["C14"],
+           "first evaluation: missed (the event-rewriting closure was not under contract); the selector closure and the event filter closure of WatchAll now carry contracts over the spec function selected(r) (five rewriting clauses)"),
  "C15-1": ("C15", "pkg/controller/runtime/internal/cache/handler.go", "contextWithTeardown always creates a new waiter channel and overwrites teardownWaiters[id]",
            "two or more outstanding teardown-bound contexts for the same cached resource while it is running, then a teardown or destroy",
            "pkg/controller/runtime/internal/cache", "TestSeed1TeardownContextManyReaders", ["C15"],
